@@ -133,3 +133,34 @@ def run(ctx):
     ctx.ob('C04.r3', E.name, 'the long-fork flag is set on the request built from genesis',
            any(o[0] == 'call' and o[1] == 'ProveRequest::new' for o in du.origins(st.args[0], stop_at_calls=False)) and
            du.from_call(st.args[0], 'LightClientProtocol::build_prove_request_content_from_genesis'), at=st.span)
+    stale_filter_hashes(ctx)
+
+
+def stale_filter_hashes(ctx):
+    """r4: when a peer's prove state is replaced by one that carries reorg headers (the peer switched to another branch), the
+    per-peer latest block filter hashes collected for the old branch are dropped in the same place — otherwise an honest peer is
+    later contradicted by its own stale hashes (banned with BlockFilterHashesIsUnexpected) and filter sync for the new chain stalls."""
+    P = ctx.prog
+    U = ctx.body('Peers::update_prove_state')
+    cfg = P.cfg(U)
+    clears = [b for b, t in P.call_sites(U, 'LatestBlockFilterHashes::clear')]
+    recv = P.call_sites(U, 'PeerState::receive_last_state_proof')
+    ctx.floor('C04.r4', 'receive_last_state_proof in Peers::update_prove_state', len(recv), 1)
+    if not clears:
+        ctx.ob('C04.r4', U.name, 'latest block filter hashes are dropped when the new prove state has reorg headers', False, at=recv[0][1].span,
+               detail='no clear of latest_block_filter_hashes where the prove state is replaced')
+        return
+    exits = cfg.exits
+    uncond = all(e not in cfg.reachable_from(cfg.succ[recv[0][0]], removed_nodes=set(clears)) for e in exits)
+    ok = uncond
+    if not ok:
+        from engine.flow import GuardFlow
+        gf = GuardFlow(U, cfg)
+        for b, t in P.call_sites(U, lambda k, tt: k.endswith('Vec::is_empty')):
+            # with the clear removed, a normal return after the state was replaced is possible only when reorg headers are empty
+            succ_ok = [(bb, s) for bb, s, l in ctx.success_sinks(U)]
+            good = all(gf.check_sink(b, 'true', bb, unconditional=False, removed=set(clears))[0] for bb, s in succ_ok)
+            if good:
+                ok = True
+    ctx.ob('C04.r4', U.name, 'latest block filter hashes are dropped when the new prove state has reorg headers', ok, at=recv[0][1].span,
+           clear_calls=len(clears), unconditional=uncond)
